@@ -136,6 +136,8 @@ def make_hoomd(recipe):
         n_t = N
         if recipe.get("nvary") and _t > 0:
             n_t = int(rng.integers(1, N + 1))           # particle number changing between frames (GSD only)
+        if recipe.get("grow") and _t == 0 and T > 1:
+            n_t = max(1, N // 2)                        # the first frame is the small one
         pos = ((rng.random((n_t, 3)) - 0.5) * L).astype(np.float32)
         if ndim == 2:
             pos[:, 2] = 0.0
@@ -431,7 +433,7 @@ class World(WorldBase):
 
     def _hoomd_recipe(self, rng, dcd):
         return {"ndim": rng.choice([2, 3]), "N": rng.randint(1, 10), "T": rng.randint(1, 5),
-                "K": rng.randint(1, 4), "nvary": (not dcd) and rng.random() < 0.3,
+                "K": rng.randint(1, 4), "nvary": (not dcd) and rng.random() < 0.3, "grow": (not dcd) and rng.random() < 0.15,
                 "share_typeid": rng.random() < 0.4, "boxvary": rng.random() < 0.3,
                 "subseed": rng.randrange(1 << 40)}
 
